@@ -517,6 +517,9 @@ def r_pure(A, ctx, scope, rule="R-PURE"):
             m = c.methods.get(nm)
             if m is not None:
                 entry_funcs.append(m)
+    em_ = prog.modules.get("skglm.estimators")
+    if em_ is not None:
+        entry_funcs += [fn for fn in em_.functions.values() if {"X", "y"} <= set(fn.params)]
     for f in entry_funcs:
         params = set(f.params) - START
         cfg = cfg_of(f)
@@ -543,6 +546,16 @@ def r_pure(A, ctx, scope, rule="R-PURE"):
                 if st.target.id in names_in(st.value) or any(
                         isinstance(x, ast.Call) and isinstance(x.func, ast.Attribute) for x in ast.walk(st.value)):
                     hit = (st.target.id, f"`{norm_src(st)[:60]}` updates it in place")
+            # stores into the storage arrays of a sparse input (`X.data *= ...`, `X.data[k] = ...`)
+            tgs = [st.target] if isinstance(st, ast.AugAssign) else (st.targets if isinstance(st, ast.Assign) else [])
+            for t in tgs:
+                base = t
+                while isinstance(base, ast.Subscript):
+                    base = base.value
+                if isinstance(base, ast.Attribute) and base.attr in ("data", "indices", "indptr") \
+                        and isinstance(base.value, ast.Name) and may_be_param(nd.id, base.value.id) \
+                        and (isinstance(st, ast.AugAssign) or isinstance(t, ast.Subscript)):
+                    hit = (base.value.id, f"`{norm_src(st)[:60]}` rewrites its stored entries in place")
             for c in ast.walk(st):
                 if isinstance(c, ast.Call) and isinstance(c.func, ast.Attribute) and c.func.attr in INPLACE_METHODS:
                     base = c.func.value
@@ -1063,3 +1076,45 @@ def _reach_avoiding(cfg, start, blocked, through_returns=False):
             continue
         todo += cfg.succ[x]
     return seen
+
+
+def r_weights_guard(A, ctx, scope, rule="R-WEIGHTS-GUARD"):
+    """C11: user weights are dropped only when there are none"""
+    ctx.rule(rule, "per-feature / per-group weights reach the penalty whenever they are given: in fit / path of an "
+             "estimator with a `weights` parameter, every penalty constructed either receives the weights (the "
+             "attribute or a local defaulted from it) or is built under the true side of `self.weights is None`; "
+             "a shortcut taken on another hyper-parameter (`gamma = inf`, `l1_ratio = 1`) must not drop them")
+    prog = A.prog
+    n = 0
+    for cls in prog.estimators:
+        if "weights" not in prog.init_params(cls):
+            continue
+        for mname in ("fit", "path"):
+            m = cls.methods.get(mname)
+            if m is None:
+                continue
+            cfg = cfg_of(m)
+            # locals defaulted from self.weights
+            wl = {"self.weights"}
+            for st in ast.walk(m.node):
+                if isinstance(st, ast.Assign) and len(st.targets) == 1 and isinstance(st.targets[0], ast.Name) \
+                        and "self.weights" in ast.unparse(st.value):
+                    wl.add(st.targets[0].id)
+            for nd in cfg.stmts():
+                if nd.ast is None or nd.kind == "for":
+                    continue
+                for c in ast.walk(nd.ast):
+                    if not isinstance(c, ast.Call):
+                        continue
+                    r = prog.resolve(m.module, ast.unparse(c.func)) if isinstance(c.func, (ast.Name, ast.Attribute)) else None
+                    if type(r).__name__ != "ClassInfo" or r not in prog.penalties:
+                        continue
+                    n += 1
+                    gets = any(ast.unparse(a) in wl for a in list(c.args) + [k.value for k in c.keywords])
+                    guarded = any(isinstance(t, ast.expr) and ast.unparse(t).replace(" ", "") == "self.weightsisNone" and lab == "true"
+                                  for t, lab, _ in cfg.facts_at(nd.id))
+                    ctx.ob(rule, f"{m.fq}::{norm_src(c)[:50]}", gets or guarded,
+                           what=f"{m.qualname} builds `{norm_src(c)[:60]}` without the weights, on a path that is not "
+                                "restricted to `self.weights is None`: when weights are given they are silently ignored "
+                                "there (the documented weighted objective is not the one solved)", loc=loc(m, c))
+    ctx.floor(rule, n, scope.get("floor", 6))
